@@ -55,7 +55,7 @@ Definition in_skip (st : dstage) : bool :=
 Inductive CInv (p O : list byte) (s : dstate) : Prop :=
   | C_start :
       d_stage s = GetFrameHeader -> p = [] -> O = [] -> d_remaining s = 0 -> d_hist s = dict ->
-      (d_skip s = false \/ d_skip s = skip) -> CInv p O s
+      d_skip s = skip -> CInv p O s
   | C_hdr :
       d_stage s = StoreFrameHeader -> O = [] -> d_remaining s = 0 -> d_hist s = dict -> d_skip s = skip ->
       pre (d_header s) (d_tmpInSize s) = p -> bytes_ok p = true -> CInv p O s
@@ -782,5 +782,66 @@ Proof.
     eapply (after_stepr p O l (adv l 4) 4); [lia|exact Hb|reflexivity|reflexivity|]. fold crc.
     apply (u_checkSuffix d maxb); [exact B|exact EC|exact ER|exact Hacc|exact Hcl|exact Hb1|].
     eapply Kc_shift; [exact HK|]. auto.
+Qed.
+
+(* ---- the frame header ---- *)
+Lemma parse_desc_repl rest d tl :
+  parse_desc rest = Some (d, tl) -> exists pre0, rest = pre0 ++ tl /\ forall g, parse_desc (pre0 ++ g) = Some (d, g).
+Proof.
+  intro H. destruct rest as [|flg [|bd r]]; try discriminate H.
+  rewrite parse_desc_factor in H.
+  destruct (spec_flags flg bd) as [[[[[[indep bcrc] csz] ccrc] did] bsid]|] eqn:SF; [|discriminate].
+  destruct (take _ r) as [[cs r1]|] eqn:T1; [|discriminate].
+  destruct (take _ r1) as [[di r2]|] eqn:T2; [|discriminate].
+  destruct r2 as [|hc r3]; [discriminate|].
+  destruct (hc =? header_checksum _) eqn:EH; [|discriminate]. inversion H; subst.
+  destruct (take_length _ _ _ _ T1) as [L1 _]. destruct (take_length _ _ _ _ T2) as [L2 _].
+  apply take_app_split in T1. apply take_app_split in T2. subst.
+  exists (flg :: bd :: cs ++ di ++ [hc]). split; [simpl; rewrite <- !app_assoc; reflexivity|].
+  intro g. simpl app. rewrite parse_desc_factor, SF. rewrite <- !app_assoc.
+  rewrite <- L1, take_app. rewrite <- L2, take_app. simpl app. cbv iota. rewrite EH. reflexivity.
+Qed.
+
+Lemma decodeHeader_init_magic s b src s' r :
+  decodeHeader s b src = (s', r) -> d_stage s' = Init -> d_stage s <> Init -> rd32 src = FD_MAGICNUMBER.
+Proof.
+  unfold decodeHeader. intros H Hst Hn.
+  destruct (zlen src <? FD_minFHSize); [inversion H; subst; contradiction|].
+  destruct (Z.land (rd32 src) SKIP_MASK =? FD_MAGIC_SKIPPABLE_START); [destruct b; inversion H; subst; ss; discriminate|].
+  destruct (rd32 src =? FD_MAGICNUMBER) eqn:E; [apply Z.eqb_eq; exact E|].
+  cbn [negb] in H. inversion H; subst. ss. contradiction.
+Qed.
+
+Lemma accept_CInv b s hd s' r :
+  bytes_ok hd = true -> FD_minFHSize <= zlen hd -> decodeHeader s b hd = (s', r) -> 0 <= r ->
+  d_stage s' = Init -> d_stage s <> Init -> d_remaining s = 0 -> d_hist s = dict -> d_skip s = skip ->
+  CInv (ztake r hd) [] s'.
+Proof.
+  intros Hb H7 ED Hr Hst Hns Hrem Hh Hsk.
+  pose proof (decodeHeader_init_magic _ _ _ _ _ ED Hst Hns) as Hmg.
+  unfold FD_minFHSize in H7.
+  destruct hd as [|m0 [|m1 [|m2 [|m3 rest]]]]; try (unfold zlen in H7; simpl in H7; lia).
+  assert (Hm : le_val [m0; m1; m2; m3] = FD_MAGICNUMBER).
+  { rewrite <- Hmg. rewrite rd32_le_val by exact Hb. reflexivity. }
+  assert (Hbr : bytes_ok rest = true).
+  { unfold bytes_ok in *. simpl in Hb. repeat (apply andb_prop in Hb; destruct Hb as [_ Hb]). exact Hb. }
+  destruct (decode_accept s b m0 m1 m2 m3 rest s' r Hbr Hm ltac:(unfold FD_minFHSize; exact H7) ED Hr Hst)
+    as (d & tl & PD & -> & Hrr & HB).
+  set (maxb := blockSize_of_id (f_bsid d)) in *.
+  destruct (parse_desc_repl _ _ _ PD) as (pre0 & Hpre & Hrepl).
+  assert (Hz : ztake r (m0 :: m1 :: m2 :: m3 :: rest) = m0 :: m1 :: m2 :: m3 :: pre0).
+  { rewrite Hrr, Hpre. unfold ztake, zlen. simpl length. rewrite app_length.
+    replace (Z.to_nat (Z.of_nat (S (S (S (S (length pre0 + length tl))))) - Z.of_nat (length tl))) with (4 + length pre0)%nat by lia.
+    cbn [Nat.add firstn]. rewrite firstn_app, Nat.sub_diag, firstn_all. simpl. rewrite app_nil_r. reflexivity. }
+  rewrite Hz.
+  eapply C_init with (d := d) (maxb := maxb).
+  - apply accept_state_fields.
+  - reflexivity.
+  - apply binv_after_init; auto.
+    destruct (f_csize d) as [n|] eqn:EN; [|exact I]. eapply parse_desc_csize_bound; eauto.
+  - intros g res (F & HF). unfold Goal, frame_decode.
+    change (take 4 ((m0 :: m1 :: m2 :: m3 :: pre0) ++ g)) with (Some ([m0; m1; m2; m3], pre0 ++ g)). cbv iota beta. rewrite Hm.
+    replace (FD_MAGICNUMBER =? MAGIC) with true by (vm_compute; reflexivity). rewrite Hrepl, HB.
+    eapply blocks_mono; [exact HF|lia].
 Qed.
 End Chunk.
